@@ -359,10 +359,18 @@ def check_placement(ctx, ex, f, fname, pk, p, info, stores):
         todo = [(groups[0], NF.atom(Atom("lv", lp.lid)), lp.info.get("over"))]
     else:
         # the scenario fixes the number of segments (single int changepoint / single anomaly tuple): unrolled zip
-        if len(unrolled) != 1:
+        if len(unrolled) > 1:
             ctx.violation(rule, pk, stores[0].loc(), "the draw is transformed outside a loop over the segments", expected="one transform per segment in the loop over zip(positions, means, variances)")
             return
-        m = unrolled[0].data["length"]
+        if unrolled:
+            m = unrolled[0].data["length"]
+        else:
+            # an index loop over a fixed number of segments is unrolled by the engine: the scenario fixes that number
+            posv = info["positions"]
+            if isinstance(posv, ListV):
+                ctx.violation(rule, pk, stores[0].loc(), "the draw is transformed outside a loop over the segments", expected="one transform per segment in the loop over the segments")
+                return
+            m = 2 if fname == "generate_changing_data" else 1
         if len(groups) != m:
             ctx.violation(rule, pk, stores[-1].loc(), f"{len(groups)} row ranges rewritten for {m} segments", expected="exactly one transform per segment")
             return
@@ -372,7 +380,7 @@ def check_placement(ctx, ex, f, fname, pk, p, info, stores):
         st = sts[-1]
         lo, hi = sl
         if fname == "generate_changing_data":
-            okb, why = _changing_bounds(ex, lo, hi, i, info, over)
+            okb, why = _changing_bounds(ex, lo, hi, i, info, over, {e.data["lst"].lid: e.data["lst"] for e in p.events if e.kind == "list_read" and isinstance(e.data.get("lst"), ListV)})
         else:
             okb, why = _anomalous_bounds(lo, hi, i, info, over)
         ctx.check(okb, rule, f"{sk}:bounds", st.loc(), why, expected="rows [L[i], L[i+1]) of [0]+changepoints+[n]" if fname == "generate_changing_data" else "rows [start_i, end_i)")
@@ -450,7 +458,7 @@ def _reads_array(a, arr):
     return False
 
 
-def _changing_bounds(ex, lo, hi, i, info, over):
+def _changing_bounds(ex, lo, hi, i, info, over, lists=None):
     """lo, hi must be L[i], L[i+1] with L = [0] + changepoints + [n]"""
     pos = info["positions"]
     if not isinstance(pos, ListV):
@@ -471,7 +479,9 @@ def _changing_bounds(ex, lo, hi, i, info, over):
         return False, f"bounds are elements {lift(la.args[2])!r} and {lift(ha.args[2])!r} of the position list"
     lid = la.args[1]
     lid = lid.as_const() if isinstance(lid, NF) else lid
-    L = _find_list(over, int(lid))
+    L = _find_list(over, int(lid)) if over is not None else None
+    if L is None and lists is not None:
+        L = lists.get(int(lid))
     if L is None:
         return False, "position list not found"
     parts = _flatten_parts(L)
@@ -548,20 +558,52 @@ def check_guards(ctx, ex, f, fname, pk, p, info):
     loops = [e.data["loop"] for e in p.events if e.kind == "loop_enter" and e.func is f and len(e.loops) == 0]
     zl = [lp for lp in loops if isinstance(lp.info.get("over"), OpaqueV) and lp.info["over"].meta.get("kind") == "zip"]
     un = [e for e in p.events if e.kind == "zip_unroll"]
-    if len(zl) + len(un) != 1:
-        ctx.violation(rule, f"{pk}:zip", f.loc(), f"{len(zl) + len(un)} zip loops over segments", expected="one")
-        return
-    parts = zl[0].info["over"].meta["parts"] if zl else un[0].data["parts"]
-    zloc = f.loc(zl[0].node) if zl and getattr(zl[0], "node", None) is not None else f.loc()
     pos = info["positions"]
     if fname == "generate_changing_data":
         npos = app("listlen", pos.lid, 0) if isinstance(pos, ListV) else NF.const(1)
         nseg = npos + 1
-        seq = parts[2:]
     else:
         nseg = app("listlen", pos.lid, 0) if isinstance(pos, ListV) else NF.const(1)
-        seq = parts[1:]
-    if fname == "generate_changing_data" and isinstance(pos, ListV) and len(parts) >= 2:
+    idx_lp = None
+    idx_unrolled = None
+    if len(zl) + len(un) == 0:
+        # idiom B: an index loop `for i in range(<number of segments>)` (possibly through enumerate of the positions)
+        # that reads means[i] / variances[i] (and L[i], L[i + 1]); for a fixed number of segments the engine unrolls it
+        cand = [lp for lp in loops if lp.info.get("range") is not None and any(e.kind == "list_read" and lp in e.loops and _seq_role(e.data.get("lst")) in ("means", "variances") for e in p.events)]
+        if len(cand) == 1:
+            idx_lp = cand[0]
+        elif not cand and nseg.as_const() is not None:
+            idx_unrolled = int(nseg.as_const())
+    if len(zl) + len(un) != 1 and idx_lp is None and idx_unrolled is None:
+        ctx.violation(rule, f"{pk}:zip", f.loc(), f"{len(zl) + len(un)} zip loops over segments", expected="one")
+        return
+    if idx_lp is not None or idx_unrolled is not None:
+        zloc = f.loc(idx_lp.node) if idx_lp is not None and getattr(idx_lp, "node", None) is not None else f.loc()
+        if idx_lp is not None:
+            lo_, hi_, st_ = idx_lp.info["range"]
+            lvi = NF.atom(Atom("lv", idx_lp.lid))
+            okr = lo_.as_const() == 0 and st_.as_const() == 1 and nf_equal(hi_, nseg)
+            ctx.check(okr, rule, f"{pk}:all-segments", zloc, f"the segment loop runs over range({lo_!r}, {hi_!r}, {st_!r})", expected=f"range(0, {nseg!r}): all segments are visited")
+        seq = []
+        for nm in ("means", "variances"):
+            rd = [e for e in p.events if e.kind == "list_read" and (idx_lp in e.loops if idx_lp is not None else not e.loops) and _seq_role(e.data.get("lst")) == nm and e.func is f]
+            if idx_lp is not None:
+                bad_i = [e for e in rd if not (isinstance(e.data.get("index"), Num) and nf_equal(e.data["index"].nf, lvi))]
+            else:
+                # the unrolled loop reads every position 0 .. nseg - 1 (reads of element 0 before the loop, e.g. for the
+                # number of columns, do not count against it)
+                got = {e.data["index"].nf.as_const() for e in rd if isinstance(e.data.get("index"), Num)}
+                bad_i = [] if set(range(idx_unrolled)) <= got and all(c is not None and 0 <= c < idx_unrolled for c in got) else rd[:1] or [None]
+            if not rd or (bad_i and bad_i != [None]) or bad_i == [None]:
+                ctx.violation(rule, f"{pk}:count-{nm}", (bad_i or rd)[0].loc() if (bad_i or rd) and (bad_i or rd)[0] is not None else zloc, f"{nm} is not read at the position of the current segment", found=[valkey(e.data.get("index")) for e in rd][:3] or "not read in the segment loop", expected=f"{nm}[i]")
+                return
+            seq.append(rd[-1].data["lst"])
+        parts = [None, None] + seq if fname == "generate_changing_data" else [None] + seq
+    else:
+        parts = zl[0].info["over"].meta["parts"] if zl else un[0].data["parts"]
+        zloc = f.loc(zl[0].node) if zl and getattr(zl[0], "node", None) is not None else f.loc()
+        seq = parts[2:] if fname == "generate_changing_data" else parts[1:]
+    if idx_lp is None and fname == "generate_changing_data" and isinstance(pos, ListV) and len(parts) >= 2:
         # every segment is visited: both position sequences are L[:-1] and L[1:] of the same padded list L
         okseg = True
         found = []
@@ -673,6 +715,27 @@ def check_guard_exact(ctx, f, fname, key, paths, info):
             ctx.undecided(rule, f"{key}:exact@{line}#{k}", loc, f"raise guarded by a condition outside the affine fragment: {unknown[0]!r}"[:200])
         else:
             ctx.violation(rule, f"{key}:exact@{line}#{k}", loc, f"consistent arguments are rejected: the guard {last!r} admits a valid argument set"[:260], expected="ValueError only for wrong counts, positions outside [0, n-1] / [0, n], or empty anomalies")
+
+
+def _seq_role(lst):
+    """'means' / 'variances' for the (possibly rebuilt: repeated, copied) list of per-segment parameters"""
+    r = getattr(lst, "role", None)
+    if r in ("means", "variances"):
+        return r
+    els = [getattr(lst, "elem", None)]
+    rp = getattr(lst, "repeat", None)
+    if rp is not None and isinstance(rp[0], ListV):
+        els += list(rp[0].items) + [getattr(rp[0], "elem", None)]
+    if isinstance(lst, ListV) and not lst.opaque:
+        els += list(lst.items)
+    for el in els:
+        if isinstance(el, Num) and el.nf is not None:
+            names = {a.args[0] for a in atoms_of(el.nf, deep=True).values() if a.kind == "sym"}
+            if names & {"means_el", "mean0"}:
+                return "means"
+            if names & {"vars_el", "var0"}:
+                return "variances"
+    return None
 
 
 def _exact_len(ex, path, q):
@@ -870,6 +933,15 @@ def _alternating_vectors(ex, path, lst, changed, base, p_, ap, S):
     zero/one vector when i % 2 == 0 and the changed vector otherwise"""
     if not isinstance(lst, ListV):
         return False, f"{valkey(lst)[:60]} is not a list"
+    # the list itself, or the k-th components of a list of per-segment tuples: [t[k] for t in pairs] / [a for a, _ in pairs]
+    proj = None
+    comp = getattr(lst, "comp", None)
+    if comp is not None and not comp["conds"] and isinstance(comp["iter"], ListV) and isinstance(comp["elem"], OpaqueV):
+        import re as _re
+
+        mm = _re.match(r"^elem\(list#(\d+)\)\[(\d+)\]$", comp["elem"].key)
+        if mm and int(mm.group(1)) == comp["iter"].lid:
+            lst, proj = comp["iter"], int(mm.group(2))
     apps = [e for e in path.events if e.kind == "list_append" and e.data.get("lst") is lst]
     if not apps:
         return False, "nothing is appended to the list"
@@ -891,6 +963,10 @@ def _alternating_vectors(ex, path, lst, changed, base, p_, ap, S):
     seen_parity = set()
     for e in apps:
         val = e.data.get("value")
+        if proj is not None:
+            if not (isinstance(val, TupleV) and proj < len(val.items)):
+                return False, f"the per-segment record {valkey(val)[:60]} is not a tuple with a component {proj}"
+            val = val.items[proj]
         par = _parity(e.facts, i)
         if par is None:
             return False, "appended vector does not depend on the parity of the segment number"
